@@ -31,10 +31,10 @@ func init() {
 		Families: func(c *mon.Config) []mon.Family {
 			fams := []mon.Family{
 				{Name: "universe-subsets", N: 1 << 12, Run: c17Subsets},
-				{Name: "keyzoo", N: c.Pick(3000, 100000), Run: c17Zoo},
+				{Name: "keyzoo", N: c.Pick(10000, 2000000), Run: c17Zoo},
 			}
 			if c.Thorough() {
-				fams = append(fams, mon.Family{Name: "large", N: 200, Run: c17Large})
+				fams = append(fams, mon.Family{Name: "large", N: 2000, Run: c17Large})
 			}
 			return fams
 		},
